@@ -19,6 +19,7 @@ type Clause struct {
 
 type LoopSpec struct {
 	Invariants []Clause
+	BackEdge   []Clause // asserted at the end of every iteration (not assumed at the head); may use atHead(e)
 }
 
 type FuncSpec struct {
@@ -211,8 +212,8 @@ func (ss *SpecSet) loadSpecFile(path, pkgName string) error {
 			case "loop":
 				// loop <n> invariant <expr>
 				parts := strings.SplitN(rest, " ", 3)
-				if len(parts) < 3 || parts[1] != "invariant" {
-					return fmt.Errorf("%s:%d: expected 'loop <n> invariant <expr>'", path, rc.line)
+				if len(parts) < 3 || (parts[1] != "invariant" && parts[1] != "backedge") {
+					return fmt.Errorf("%s:%d: expected 'loop <n> invariant|backedge <expr>'", path, rc.line)
 				}
 				n, err := strconv.Atoi(parts[0])
 				if err != nil {
@@ -225,7 +226,11 @@ func (ss *SpecSet) loadSpecFile(path, pkgName string) error {
 				if cur.Loops[n] == nil {
 					cur.Loops[n] = &LoopSpec{}
 				}
-				cur.Loops[n].Invariants = append(cur.Loops[n].Invariants, c)
+				if parts[1] == "backedge" {
+					cur.Loops[n].BackEdge = append(cur.Loops[n].BackEdge, c)
+				} else {
+					cur.Loops[n].Invariants = append(cur.Loops[n].Invariants, c)
+				}
 			case "modifies":
 				cur.HasMod = true
 				cur.Modifies = append(cur.Modifies, strings.Fields(strings.ReplaceAll(rest, ",", " "))...)
